@@ -116,9 +116,31 @@ InPattern(T, n) ==
   ELSE IF K(T, p) \in ExprKinds THEN InPattern(T, p)
   ELSE FALSE
 
+(* ---- f-strings (CPython 3.12: the parts of an f-string are tokens and positioned nodes) ---- *)
+(* FStrPart: a literal part of an f-string, i.e. a Constant in JoinedStr.values.  Its text is what  *)
+(* lies between the structural tokens around it (`f"` / `}` before, `{` / closing quote after);     *)
+(* implicit concatenation merges it with neighbouring plain string tokens.  tokenize's own          *)
+(* FSTRING_MIDDLE tokens are NOT used for it: they drop the doubled brace of `{{` / `}}`.           *)
+FStrPart(T, n) == K(T, n) = "Constant" /\ Par(T, n) # 0 /\ K(T, Par(T, n)) = "JoinedStr"
+
+ChIdx(T, n) == LET c == Ch(T, Par(T, n)) IN CHOOSE i \in 1..Len(c) : c[i] = n
+NextSib(T, n) == LET c == Ch(T, Par(T, n)) i == ChIdx(T, n) IN IF i < Len(c) THEN c[i + 1] ELSE 0
+CpBefore(a, b) == a[1] < b[1] \/ (a[1] = b[1] /\ a[2] < b[2])      \* raw (line, byte column) order
+
+(* DebugText (CPython 3.12 quirk, named domain predicate): the text of a self-documenting field    *)
+(* `{x = }` is a Constant placed BEFORE the field's FormattedValue in JoinedStr.values (merged with *)
+(* a preceding literal part), but CPython positions it INSIDE the field: from the `{` (or the start *)
+(* of the merged literal) to the first token after the `=`.  It therefore overlaps its next         *)
+(* sibling; recognised from CPython's positions alone: it ends after its next sibling starts.       *)
+DebugText(T, n) ==
+  /\ FStrPart(T, n) /\ Positioned(T, n) /\ NextSib(T, n) # 0
+  /\ LET s == NextSib(T, n) IN
+       /\ K(T, s) = "FormattedValue" /\ Positioned(T, s)
+       /\ CpBefore(<<T.nodes[s].cp[1], T.nodes[s].cp[2]>>, <<T.nodes[n].cp[3], T.nodes[n].cp[4]>>)
+
 Parenthesizable(T, n) ==
   \/ K(T, n) \in PatternKinds
-  \/ K(T, n) \in ExprKinds \ {"Slice", "FormattedValue"} /\ ~InPattern(T, n)
+  \/ K(T, n) \in ExprKinds \ {"Slice", "FormattedValue"} /\ ~InPattern(T, n) /\ ~FStrPart(T, n)
 
 (* ---- CPython's span through the spec's UTF-8 map ---------------------------- *)
 CpLoc0(T, n) ==
@@ -128,11 +150,31 @@ CpLoc(T, n) == T.m.cl[n]
 
 (* the witnesses really are the first / last token of CPython's span            *)
 WitOK(T, n) == T.m.wit[n]
+(* witness kinds: 0 = the span starts at the START of token ts / ends at the END of token te (every  *)
+(* node); 1 = only for FStrPart: it starts at the END of `f"` or of a `}` / ends at the START of a    *)
+(* `{`, of the closing quote or (in a format spec) of the field's `}`; a format spec as a whole also  *)
+(* ends at that `}` (tokenize's multi-line FSTRING_MIDDLE ends are unusable); a DebugText may start at the END of its `{` (leading white space) and *)
+(* ends at the start of the token that follows the `=`                                               *)
+TType(T, i) == IF TokOK(T, i) THEN T.toks[i][1] ELSE ""
+WitS(T, n) ==
+  LET x == T.nodes[n] IN
+  IF x.tsk = 0 THEN TS(T, x.ts)
+  ELSE IF FStrPart(T, n) /\ (\/ TType(T, x.ts) = "FSTRING_START" \/ TStr(T, x.ts) = "}"
+                             \/ DebugText(T, n) /\ TStr(T, x.ts) = "{") THEN TE(T, x.ts)
+  ELSE -1
+FStrSpec(T, n) == K(T, n) = "JoinedStr" /\ T.nodes[n].fld = "format_spec"     \* `:spec` of a field: ends at the field's `}`
+WitE(T, n) ==
+  LET x == T.nodes[n] IN
+  IF x.tek = 0 THEN TE(T, x.te)
+  ELSE IF FStrPart(T, n) /\ (IF DebugText(T, n) THEN TStr(T, x.te - 1) = "=" /\ TStr(T, x.te) \in {"}", "!", ":"}
+                             ELSE TType(T, x.te) = "FSTRING_END" \/ TStr(T, x.te) \in {"{", "}"}) THEN TS(T, x.te)
+  ELSE IF FStrSpec(T, n) /\ TStr(T, x.te) = "}" THEN TS(T, x.te)
+  ELSE -1
 WitOK0(T, n) ==
   LET x == T.nodes[n]  l == CpLoc(T, n)
   IN /\ Positioned(T, n) /\ TokOK(T, x.ts) /\ TokOK(T, x.te)
      /\ l[2] >= 0 /\ l[4] >= 0
-     /\ TS(T, x.ts) = P(l[1], l[2]) /\ TE(T, x.te) = P(l[3], l[4])
+     /\ WitS(T, n) = P(l[1], l[2]) /\ WitE(T, n) = P(l[3], l[4])
 
 (* ---- grouping parentheses that BELONG to a node ----------------------------- *)
 (* LP / RP: `(` tokens immediately before / `)` immediately after the node (only  *)
@@ -164,8 +206,8 @@ Own0(T, n) ==
 (* of its own borrows the call's: CPython's span of it IS `( ... )` of the call   *)
 SharedGenexp(T, n) == K(T, n) = "GeneratorExp" /\ Solo(T, n) /\ K(T, Par(T, n)) = "Call" /\ LP(T, n) = 0
 
-ParsStart(T, n) == TS(T, T.nodes[n].ts - Own(T, n))      \* start of the node incl. its own parentheses
-ParsEnd(T, n)   == TE(T, T.nodes[n].te + Own(T, n))
+ParsStart(T, n) == IF Own(T, n) = 0 THEN WitS(T, n) ELSE TS(T, T.nodes[n].ts - Own(T, n))   \* incl. its own parentheses
+ParsEnd(T, n)   == IF Own(T, n) = 0 THEN WitE(T, n) ELSE TE(T, T.nodes[n].te + Own(T, n))
 
 (* ------------------------------------------------------------------------- *)
 (* Expected span <<start, end>> (integer positions) of every node; <<>> = none *)
@@ -317,7 +359,7 @@ AttrsOK(T, n) ==
 TightOK(T, n) ==
   LET x == T.nodes[n] IN
   /\ TokOK(T, x.ts) /\ TokOK(T, x.te)
-  /\ RLoc(T, n) = <<TS(T, x.ts), TE(T, x.te)>>
+  /\ RLoc(T, n) = <<WitS(T, n), WitE(T, n)>>
 
 (* pars(): n pairs belonging to the node, the span from the outermost `(` to its `)`      *)
 ExpParsT(T, n) ==
@@ -337,15 +379,20 @@ NestedOK(T, n) ==
 
 (* Ordered: the children (those that have a location) follow each other in syntax order   *)
 LocCh(T, n) == SelectSeq(Ch(T, n), LAMBDA c : T.nodes[c].bloc # <<>>)
+(* (a DebugText overlaps the field it documents: it only has to end inside that field)        *)
 OrderedOK(T, n) ==
-  LET c == LocCh(T, n) IN \A i \in 1..(Len(c) - 1) : RBloc(T, c[i])[2] <= RBloc(T, c[i + 1])[1]
+  LET c == LocCh(T, n) IN
+  \A i \in 1..(Len(c) - 1) :
+    IF DebugText(T, c[i]) THEN RBloc(T, c[i])[2] < RBloc(T, c[i + 1])[2]
+    ELSE RBloc(T, c[i])[2] <= RBloc(T, c[i + 1])[1]
 (* the recorder's syntax order agrees with CPython's own positions (oracle consistency)   *)
 PosCh(T, n) == SelectSeq(Ch(T, n), LAMBDA c : T.nodes[c].cp # <<>>)
 OrderOracleOK(T, n) ==
   LET c == PosCh(T, n) IN
   \A i \in 1..(Len(c) - 1) :
     LET a == T.nodes[c[i]].cp  b == T.nodes[c[i + 1]].cp
-    IN a[3] < b[1] \/ (a[3] = b[1] /\ a[4] <= b[2])
+    IN IF DebugText(T, c[i]) THEN CpBefore(<<a[3], a[4]>>, <<b[3], b[4]>>)
+       ELSE a[3] < b[1] \/ (a[3] = b[1] /\ a[4] <= b[2])
 
 NodeClauses(T, n) ==
   LET x == T.nodes[n] IN
@@ -369,7 +416,10 @@ Memo(T) ==
       T3 == [T EXCEPT !.m = [pre |-> T1.m.pre, cl |-> T2.m.cl, wit |-> <<>> \o [n \in 1..N |-> WitOK0(T2, n)]]]
       T4 == [T EXCEPT !.m = [pre |-> T1.m.pre, cl |-> T2.m.cl, wit |-> T3.m.wit,
                              own |-> <<>> \o [n \in 1..N |-> Own0(T3, n)]]]
+      dbg == {<<Exp(T4, d), Exp(T4, NextSib(T4, d))>> : d \in {n \in 1..N : DebugText(T, n)}}
   IN [T EXCEPT !.m = [pre |-> T1.m.pre, cl |-> T2.m.cl, wit |-> T3.m.wit, own |-> T4.m.own,
+                      dbg |-> {<<IF p[1][1] <= p[2][1] THEN p[1][1] ELSE p[2][1],
+                                 IF p[1][2] >= p[2][2] THEN p[1][2] ELSE p[2][2]>> : p \in dbg},
                       par |-> <<>> \o [n \in 1..N |-> T.nodes[n].par],
                       sp  |-> <<>> \o [n \in 1..N |-> Span(T.nodes[n].loc)]]]
 
